@@ -38,6 +38,8 @@ import SuironVerif.Lemmas.ParseListSim
 import SuironVerif.Lemmas.ParseArgsMulti
 import SuironVerif.Lemmas.ParseListMulti
 import SuironVerif.Lemmas.ParseListTail
+import SuironVerif.Lemmas.ParseInfixStruct
+import SuironVerif.Lemmas.CanonInfix
 namespace Suiron.C20
 open Suiron.Parse
 
@@ -168,6 +170,33 @@ example : ∀ a ∈ ["f(a, b)".toList, "[1, 2 | $T]".toList, "\"x, y\"".toList, 
   intro a ha
   simp only [List.mem_cons, List.mem_nil_iff, or_false] at ha
   rcases ha with rfl | rfl | rfl | rfl <;> exact ⟨by decide, by decide, by decide, by decide, by rfl, by decide⟩
+
+/-- C20, A STRUCTURED TEXT AS THE LEFT OPERAND OF `=`: in the subgoal `T = R` the left operand is `parse_term T` — for every
+    trimmed text T without `<`, `>`, `=` and quotes whose every `(` is followed by a `)` later in T (the skipping of `check_infix` — to
+    the NEXT `)`, not the matching one — then ends inside T); complex terms nested to any depth, lists, atoms with
+    blanks among them.  (Texts with quotes or comparison characters stay with the exhaustive stream.) -/
+theorem as_infix_operand_structured (po : POps) (f : Nat) {T R : Text} (htrim : trim T = T) (hne : T ≠ [])
+    (hfree : infixFree T = true) (hnext : parenNext T = true)
+    (hrtrim : trim R = R) (hr : R ≠ []) :
+    parseSubgoal po (f + 1) (T ++ ' ' :: '=' :: ' ' :: R) =
+      (parseTerm po f T).bind fun l => (parseTerm po f R).bind fun r =>
+        .ok (.bip "unify" (some (.cons l (.cons r .nil)))) :=
+  parseSubgoal_struct_unify po f htrim hne hfree hnext hrtrim hr
+
+/-- non-vacuity: a nested complex term with a list and an atom with a blank meets the hypotheses -/
+example : trim "f(g(a, [b | $T]), New York)".toList = "f(g(a, [b | $T]), New York)".toList ∧
+    infixFree "f(g(a, [b | $T]), New York)".toList = true ∧ parenNext "f(g(a, [b | $T]), New York)".toList = true := by decide
+
+/-- C20 / C19, EVERY CANONICAL TERM AS THE LEFT OPERAND OF `=`: for a canonical text T of the term t (`Canon`: integers, atoms,
+    variables, `$_`, complex terms, lists, nested to any depth) the subgoal `T = R` is the unification of t — what `parse_term T`
+    gives alone — with `parse_term R`; the hypotheses of `as_infix_operand_structured` hold of every canonical text
+    (`canon_infixFree`, `canon_parenNext`) -/
+theorem canonical_term_as_infix_operand (po : POps) (hα : ∀ c, isLetter c = true → po.isAlpha c = true) {d : Nat} {T : Text}
+    {t : Term} (h : Canon d T t) (f : Nat) {R : Text} (hrtrim : trim R = R) (hr : R ≠ []) :
+    parseTerm po (3 * d + 3 + f) T = .ok t ∧
+    parseSubgoal po (3 * d + 3 + f + 1) (T ++ ' ' :: '=' :: ' ' :: R) =
+      (parseTerm po (3 * d + 3 + f) R).bind fun r => .ok (.bip "unify" (some (.cons t (.cons r .nil)))) :=
+  ⟨parse_canon po hα h f, canon_as_infix_operand po hα h f hrtrim hr⟩
 
 /-- C20, A LIST OF SEVERAL ELEMENTS: `parse_linked_list` of `[T1, ..., Tn]` parses each `Ti` exactly as `parse_term Ti` alone
     does (last element first, each linked in front of what is already built), for structured element texts with closed quotes
